@@ -25,3 +25,17 @@ TEXT['C09'] = dict(
     design_ref='DESIGN.md section 6 C09')
 
 NOT_APPLICABLE = {('C%02d' % i): 'check not built yet (build in progress; see DESIGN.md section 6 for the plan)' for i in range(1, 21)}
+
+reg('C05', 'proof', rac=False,
+    explanation='Deductive: is_holiday/is_bday, adjust f/p (loops with invariants and variants) and m, add (loop path for |n|<=1 and table path), '
+                'bdays, Calendar.drange(1b) and the relational clauses (path agreement, bdays(t, add(t,n)) == n, inverse) are obligations generated '
+                'from the real AST with holiday and weekend sets uninterpreted. Calendar._populate is an assumed contract.')
+TEXT['C05'] = dict(
+    level_text='Proof: holiday and weekend sets are uninterpreted predicates, so one discharged obligation covers every calendar configuration, every date '
+               'in range and every n; loops carry sidecar invariants and variants; counting lemmas are proved by explicit induction obligations.',
+    level_note='Trusted: VC generator, solvers, induction schema, datetime axioms, ymd drops the time of day (C04). Assumed contract (bounded-checked only): '
+               'Calendar._populate (filtered comprehension over dateutil.rrule) builds dt2int[b] = number of business days before b and int2dt its inverse. '
+               'Range precondition: dates lie between two business days of the calendar.',
+    technique='contract-based deductive verification: AST-generated VCs with loop invariants + z3/cvc5',
+    design_ref='DESIGN.md section 6 C05')
+del NOT_APPLICABLE['C09'], NOT_APPLICABLE['C05']
